@@ -586,7 +586,7 @@ func applyTier(tier string) {
 	case "thorough":
 		secondChanceTimeout, knownTimeout, vacuityTimeout, crossCheck = 60, 10, 30, true
 	default:
-		secondChanceTimeout, knownTimeout, vacuityTimeout, crossCheck = 5, 1, 5, false
+		secondChanceTimeout, knownTimeout, vacuityTimeout, crossCheck = 20, 1, 5, false
 	}
 	if s := os.Getenv("VERIF_SEED"); s != "" {
 		fmt.Sscan(s, &solverSeed)
